@@ -430,11 +430,13 @@ impl Prop for P {
                 workers: 8,
                 cases_per_worker: 120,
                 timeout_s: 1800,
+                max_shrink_iters: 300,
             },
             Tier::Thorough => Plan {
                 workers: 16,
                 cases_per_worker: 3000,
                 timeout_s: 10800,
+                max_shrink_iters: 300,
             },
         }
     }
